@@ -18,6 +18,17 @@ use vx_kit::{guard, Local};
 pub mod data;
 pub mod ul;
 
+/// faults that really fired, per (part, direction): data-write, data-read, ul-write, ul-read
+pub static FIRED: [std::sync::atomic::AtomicU64; 4] = [
+    std::sync::atomic::AtomicU64::new(0),
+    std::sync::atomic::AtomicU64::new(0),
+    std::sync::atomic::AtomicU64::new(0),
+    std::sync::atomic::AtomicU64::new(0),
+];
+pub fn fired(slot: usize) {
+    FIRED[slot].fetch_add(1, Ordering::Relaxed);
+}
+
 // ---------------------------------------------------------------------------------------------
 // scripted writer with a call log
 // ---------------------------------------------------------------------------------------------
@@ -159,7 +170,7 @@ pub fn merge(base: &Value, extra: Value) -> Value {
     Value::Object(m)
 }
 
-fn short(s: &str) -> String {
+pub(crate) fn short(s: &str) -> String {
     s.chars().take(240).collect()
 }
 pub fn hex_head(b: &[u8]) -> String {
@@ -224,6 +235,9 @@ pub fn enumerate_write<F, V, A>(
         }
         l.eval();
         let run = run_write(op, Some(f));
+        if run.fired {
+            fired(0);
+        }
         let call_kind = match f {
             WriteFault::ErrAtCall(i) | WriteFault::ZeroAtCall(i) => {
                 if base.log.get(i).map(|x| x.0).unwrap_or(false) { "flush" } else { "write" }
@@ -239,12 +253,12 @@ pub fn enumerate_write<F, V, A>(
         match &run.result {
             Err(p) => {
                 l.nontrivial(&case_id);
-                l.outcome("panic");
+                l.outcome("write-fault/panic");
                 l.fail(&case_id, cls(json!({"kind": "panic"})), detail(&run, &short(p)));
             }
             Ok(Ok(())) if run.fired => {
                 l.nontrivial(&case_id);
-                l.outcome("ok-despite-fault");
+                l.outcome("write-fault/ok-despite-fault");
                 let ann = annotate(&run.accepted, &base);
                 let complete = run.accepted == base.bytes;
                 l.fail(
@@ -255,14 +269,14 @@ pub fn enumerate_write<F, V, A>(
             }
             Ok(Err(e)) if run.fired => {
                 l.nontrivial(&case_id);
-                l.outcome_with("err-reported", || json!({"case": case_id, "error": short(e)}));
+                l.outcome_with("write-fault/err-reported", || json!({"case": case_id, "error": short(e)}));
             }
             Ok(Ok(())) => {
                 // the fault point was not reached (Ok(0) scheduled on a flush call): same as fault-free
                 if run.accepted != base.bytes {
                     l.check.machinery_error(&format!("{case_id}: fault not fired but output differs from the fault-free run"));
                 }
-                l.outcome("fault-not-reached-ok");
+                l.outcome("write-fault/not-reached-ok");
             }
             Ok(Err(e)) => {
                 l.check.machinery_error(&format!("{case_id}: fault not fired but operation returned Err: {}", short(e)));
@@ -352,6 +366,9 @@ where
         }
         l.eval();
         let run = run_read(op, data, Some(f));
+        if run.fired {
+            fired(1);
+        }
         let kind = match f {
             ReadFault::ErrAtCall(_) => "err-at-call",
             ReadFault::ErrAfterBytes(_) => "err-after-bytes",
@@ -364,32 +381,32 @@ where
         match &run.result {
             Err(p) => {
                 l.nontrivial(&case_id);
-                l.outcome("panic");
+                l.outcome("read-fault/panic");
                 l.fail(&case_id, cls(json!({"kind": "panic"})), detail(&short(p)));
             }
             Ok(Ok(())) if run.fired => {
                 l.nontrivial(&case_id);
-                l.outcome("ok-despite-fault");
+                l.outcome("read-fault/ok-despite-fault");
                 l.fail(&case_id, cls(json!({"kind": "ok-despite-fault"})), detail("operation returned Ok although the reader failed"));
             }
             Ok(Err(e)) if run.fired => {
                 l.nontrivial(&case_id);
-                l.outcome_with("err-reported", || json!({"case": case_id, "error": short(e)}));
+                l.outcome_with("read-fault/err-reported", || json!({"case": case_id, "error": short(e)}));
             }
             Ok(Ok(())) => {
                 // the operation finished without calling the reader at the fault point; it must then
                 // have consumed the complete input, otherwise success was reported on a short read
                 if run.delivered != r0.delivered {
                     l.nontrivial(&case_id);
-                    l.outcome("ok-on-truncated-input-without-fault");
+                    l.outcome("read-fault/ok-on-truncated-input");
                     l.fail(&case_id, cls(json!({"kind": "ok-on-truncated-input"})), detail("Ok returned with fewer bytes than the fault-free run and no Err seen"));
                 } else {
-                    l.outcome("fault-not-reached-ok");
+                    l.outcome("read-fault/not-reached-ok");
                 }
             }
             Ok(Err(_)) => {
                 // short delivery before the fault point made the operation give up on its own
-                l.outcome("err-before-fault-point");
+                l.outcome("read-fault/err-before-fault-point");
             }
         }
     }
